@@ -291,7 +291,7 @@ P_C18_OneGoAwayWithCode ==
      /\ Post.conn = "CLOSED"
 \* C19: a closed connection emits nothing but GOAWAY, and calls that would emit raise
 P_C19_ClosedStaysQuiet ==
-  (HasSrc /\ Pre.conn = "CLOSED" /\ Pre.out = <<>> /\ ~Excused({"ack_data_when_closed"})) =>
+  (HasSrc /\ Pre.conn = "CLOSED" /\ Pre.out = <<>> /\ ~Excused({"ack_data_when_closed", "rst_on_closed_connection"})) =>
      /\ \A i \in 1..Len(OutF) : OutF[i].t = "GOAWAY"
      /\ Post.conn = "CLOSED"
      /\ (IsCall /\ last.c.op \in {"hdr", "data", "end", "inc", "push", "ping", "rst", "set", "alt", "prio"}) => ~ROk
